@@ -1,0 +1,21 @@
+//go:build verif
+
+package smtp
+
+import "net"
+
+// VerifListenerAddr returns the address the listener is bound to (nil before Start has bound it).
+// Call it only after Start has invoked its readyFunc.
+func (s *Server) VerifListenerAddr() net.Addr {
+	if s.listener == nil {
+		return nil
+	}
+	return s.listener.Addr()
+}
+
+// VerifWrapListener replaces the listener by wrap(listener).  Verification harness only: lets a test
+// stretch the instants "Accept has returned" and "Close is being executed" (a net.Listener decorator, as
+// tls.Listen already is).  Call it after readyFunc, while no connection is being accepted.
+func (s *Server) VerifWrapListener(wrap func(net.Listener) net.Listener) {
+	s.listener = wrap(s.listener)
+}
